@@ -38,6 +38,7 @@ type flashCase struct {
 	Hostile string       `json:"hostile"`
 	Seen    [][]flashMsg `json:"seen"`
 	Extra   bool         `json:"extra"`
+	Via     string       `json:"via"`
 }
 
 func flashText(class, role string) string {
@@ -111,6 +112,14 @@ func TestC12(t *testing.T) {
 		if hasOld {
 			r = r.WithInput() // the old input is the query string of this request
 		}
+		switch c.Get("X-Via") {
+		case "route":
+			return r.Route("next")
+		case "routequery":
+			return r.Route("next", fiber.RedirectConfig{Queries: map[string]string{"from": "start"}})
+		case "back":
+			return r.Back("/next") // no Referer: the fallback is used
+		}
 		return r.To("/next")
 	})
 	app.Get("/next", func(c fiber.Ctx) error {
@@ -122,7 +131,7 @@ func TestC12(t *testing.T) {
 			out = append(out, flashMsg{Key: m.Key, Value: m.Value, Old: true})
 		}
 		return c.JSON(out)
-	})
+	}).Name("next")
 	ln := fasthttputil.NewInmemoryListener()
 	go func() { _ = app.Listener(ln, fiber.ListenConfig{DisableStartupMessage: true}) }()
 	hInproc := app.Handler()
@@ -269,6 +278,7 @@ func TestC12(t *testing.T) {
 				CheckRedirect: func(*http.Request, []*http.Request) error { return http.ErrUseLastResponse }}
 			req, _ := http.NewRequest("GET", "http://flash.test/start?"+q.Encode(), nil)
 			req.Header.Set("X-Msgs", string(hdr))
+			req.Header.Set("X-Via", cs.Via)
 			resp, err := cl.Do(req)
 			if err != nil {
 				note = "the conforming client refuses the redirect response: " + err.Error()
@@ -289,14 +299,14 @@ func TestC12(t *testing.T) {
 			var cookie []byte
 			if cs.Client == "inprocess" {
 				// the redirect response never touches a wire: the cookie bytes are read from the response object
-				rc := doReqH(hInproc, "GET", "/start?"+q.Encode(), "X-Msgs", string(hdr))
+				rc := doReqH(hInproc, "GET", "/start?"+q.Encode(), "X-Msgs", string(hdr), "X-Via", cs.Via)
 				var ck fasthttp.Cookie
 				ck.SetKey("fiber_flash")
 				if rc.Response.Header.Cookie(&ck) {
 					cookie = append([]byte{}, ck.Value()...)
 				}
 			} else {
-				resp, err := wireGet(ln, "/start?"+q.Encode(), nil, "X-Msgs: "+string(hdr)+"\r\n")
+				resp, err := wireGet(ln, "/start?"+q.Encode(), nil, "X-Msgs: "+string(hdr)+"\r\nX-Via: "+cs.Via+"\r\n")
 				if err != nil {
 					note = "redirect request failed: " + err.Error()
 				} else {
